@@ -1370,6 +1370,13 @@ func (r *runningStep) runStage(forceCloseTimeoutMS int64) error {
 		return result.Error
 	}
 
+	// The step only declares the outputs of the schema that was read when the workflow was prepared.
+	if _, declared := r.stepSchema.Outputs()[result.OutputID]; !declared {
+		return fmt.Errorf(
+			"schema mismatch between local and remote deployed plugin in step %s/%s, the plugin returned the undeclared output '%s'",
+			r.runID, r.pluginStepID, result.OutputID)
+	}
+
 	// Execution complete, move to state running stage outputs, then to state finished stage.
 	r.transitionRunningStage(StageIDOutput)
 	r.completeStep(r.currentStage, step.RunningStepStateFinished, &result.OutputID, &result.OutputData)
